@@ -91,6 +91,27 @@ def body(data, hist):
                            {'op': 'pr_event', 'pr': pid_},
                            {'op': 'pr_event', 'pr': pid_}]
                 hist.flags.add('c19_one_step_macro')
+        elif k_ == 3:
+            # integration pull requests asked for by the per-PR option (the
+            # only way to get them when the setting is off), then an event
+            # on one of them
+            pr_ = prs_[data.draw(st.integers(0, len(prs_) - 1), label='cp')]
+            hist.apply({'op': 'comment', 'pr': pr_,
+                        'user': hist.world.prs[pr_]['author'],
+                        'text': '@robot create_pull_requests'})
+            hist.apply({'op': 'pr_event', 'pr': pr_})
+            src_ = hist.world.prs[pr_]['src']
+            kids_ = [p[0] for p in hist.world.all_prs()
+                     if p[1] == ROBOT and p[2].startswith('w/') and
+                     p[2].split('/', 2)[2] == src_ and p[4] == 'OPEN']
+            if kids_ and not hist.violations:
+                kid_ = kids_[data.draw(st.integers(0, len(kids_) - 1),
+                                       label='kid')]
+                steps_ = [{'op': 'report_pr', 'pr': pr_,
+                           'state': 'SUCCESSFUL'},
+                          {'op': 'pr_event', 'pr': kid_},
+                          {'op': 'pr_event', 'pr': kid_}]
+                hist.flags.add('c19_children_by_option_macro')
         for step in steps_:
             w = hist.world
             twin = None
